@@ -297,6 +297,7 @@ def _run_wrapper(orig):
         }
         ST.execs.append(rec)
         PEER.ctx.append((dtid, k))
+        PEER.run_stdout.append(sys.stdout)
         PEER._stdout_was_swapped = False
         hits0 = len(PEER.hits)
         fired0 = len(PEER.fired)
@@ -341,6 +342,7 @@ def _run_wrapper(orig):
             if isinstance(snap0.stdout, SimStream):
                 snap0.stdout.disarm()
             PEER.ctx.pop()
+            PEER.run_stdout.pop()
             snap1 = Snap()
             rec['snap1'] = snap1
             rec['hits'] = PEER.hits[hits0:]
@@ -454,7 +456,9 @@ def install_wrappers():
         utils.import_module_from_path = w
     peermod.install()
     seams.install_loop_policy()
-    seams.set_in_part_probe(lambda: isinstance(sys.stdout, util_stream.TeeStringIO))
+    # a write reaches the terminal 'during a part' when the doctest's output is being
+    # captured, i.e. sys.stdout is not the stream the running run() found
+    seams.set_in_part_probe(lambda: bool(PEER.run_stdout) and sys.stdout is not PEER.run_stdout[-1])
     ST.xd = xd
     return xd
 
@@ -525,7 +529,6 @@ def execute(scn, root, count_only=False):
     ST.xd = xd
     PEER.reset()
     from xdoctest.utils import util_stream
-    PEER.capture_cls = util_stream.TeeStringIO
     SimLoop.instances.clear()
     LOG.events = []
     LOG.root = root
@@ -558,7 +561,7 @@ def execute(scn, root, count_only=False):
     PEER.doc_owner = owner.get
     # module-level state xdoctest caches between calls
     from xdoctest import directive
-    directive._MODNAME_EXISTS_CACHE.clear()
+    getattr(directive, '_MODNAME_EXISTS_CACHE', {}).clear()
     ST.term = SimStream('stdout')
     ST.termerr = SimStream('stderr')
     real_out, real_err = sys.stdout, sys.stderr
